@@ -78,6 +78,18 @@ def queries(tier):
                 d["LASTNOCB"] = 1
             qs.append(Query("taskq-%s%s" % (w, "-nocb" if lastnocb else ""), "c02/taskq.c", tus=TUS, env=ENV, defs=d, unwind=20, timeout=120, group="c02/taskq.c",
                             params={"unit": "core/taskq.c", "word": w, "task1_has_callback": not lastnocb}))
+    # the expiry thread with several timed operations, more falling due in one scan than one batch holds (batch size 2)
+    BATCH = [(3, (100, 100, 100), 150), (4, (100, 100, 100, 100), 150), (2, (100, 100), 150), (3, (100, 200, 300), 50), (3, (100, 100, 300), 150),
+             (3, (100, -1, 100), 150), (4, (100, 100, 100, 400), 150), (3, (300, 100, 100), 150), (4, (100, 100, 100, 100), 50), (4, (100, 100, 200, 200), 150)]
+    if tier != "quick":
+        BATCH += [(4, (100, 100, 100, 100), 99), (4, (100, 100, 100, 100), 101), (4, (400, 300, 200, 100), 250), (4, (-1, 100, 100, 100), 150), (4, (100, 100, 100, 100), 1000)]
+    for na, ts, adv in BATCH:
+        d = {"NA": na, "ADV": adv}
+        for i, t in enumerate(ts):
+            d["T%d" % i] = "(%d)" % t
+        nm = "aiobatch-n%d-%s-adv%d" % (na, "_".join("inf" if t < 0 else str(t) for t in ts), adv)
+        qs.append(Query(nm, "c02/aio_batch.c", tus=TUS, env=ENV, defs=d, cdefs=["-DENV_NO_CV_UNTIL", "-DNNI_EXPIRE_BATCH=2"], unwind=12, timeout=300,
+                        group="c02/aio_batch.c", params={"unit": "core/aio.c nni_aio_expire_loop", "aios": na, "timeouts_ms": list(ts), "clock_advance": adv, "batch": 2}))
     for cls, nm in ((0, "fresh"), (1, "stopped"), (2, "zero-timeout"), (3, "aborted")):
         qs.append(Query("dialer-start-aio-%s" % nm, "c14/dialer_connect.c", tus=["core/list.c", "core/options.c"],
                         env=["env_alloc.c", "env_misc.c", "env_sync.c", "env_aio.c", "env_libc.c"], defs={"STARTAIO": cls}, unwind=30, timeout=300,
@@ -86,6 +98,6 @@ def queries(tier):
     return qs
 
 MANIFEST = {
-    "text": "Bounded symbolic check of the real core/aio.c under nested schedules (every outer operation word x every single operation of another thread at a symbolic yield point: callback exactly once, never a timeout before the deadline, first winner's result, nothing pending after nng_aio_stop), of its timing rules in sequential words with a shadow deadline that is independent of the aio's fields (which of nng_aio_set_timeout / nng_aio_set_expire decides, zero/infinite/default, nng_sleep_aio within / beyond the aio timeout, a cancel after completion does not reach the next operation), of the real core/taskq.c busy accounting (each dispatch/exec runs the callback exactly once, busy <=> something outstanding, wait returns only then) and of nni_dialer_start_aio / dialer_connect_cb completing the user aio exactly once.",
+    "text": "Bounded symbolic check of the real core/aio.c under nested schedules (every outer operation word x every single operation of another thread at a symbolic yield point: callback exactly once, never a timeout before the deadline, first winner's result, nothing pending after nng_aio_stop), of its timing rules in sequential words with a shadow deadline that is independent of the aio's fields (which of nng_aio_set_timeout / nng_aio_set_expire decides, zero/infinite/default, nng_sleep_aio within / beyond the aio timeout, a cancel after completion does not reach the next operation and does not change the result the operation was completed with), of its expiry thread with up to 4 timed operations and a batch size of 2 (every due operation is completed once with NNG_ETIMEDOUT, never early, the thread never sleeps past one that is due), of the real core/taskq.c busy accounting (each dispatch/exec runs the callback exactly once, busy <=> something outstanding, wait returns only then) and of nni_dialer_start_aio / dialer_connect_cb completing the user aio exactly once.",
     "note": "Nesting depth 1 (one foreign operation inside one gap); overlapping critical sections and real task/expire threads are outside; CBMC cannot encode true preemption for this code (pointer handling for concurrency unsound).",
 }
